@@ -14,11 +14,15 @@ opts = dict((a[2:].split('=',1)+[''])[:2] for a in sys.argv[1:] if a.startswith(
 idx = json.load(open('/verif/selftest/index.json'))
 results = {'base_commit': sh('git -C /repo rev-parse --short HEAD')[1].strip(), 'must_fail': {}, 'harmless': {}}
 bad = 0
+shard_i, shard_n = (int(x) for x in opts.get('shard', '0/1').split('/'))
+case_no = 0
 for kind, want in (('must_fail', 1), ('harmless', 0)):
     for name, props in idx[kind].items():
         if opts.get('only') and opts['only'] not in name: continue
+        case_no += 1
+        if case_no % shard_n != shard_i: continue
         patch = '/verif/selftest/%s/%s.patch' % ('mutants' if kind == 'must_fail' else 'harmless', name)
-        wt = '/tmp/selftest-wt'
+        wt = '/tmp/selftest-wt%d' % shard_i
         sh('git -C /repo worktree remove --force '+wt); shutil.rmtree(wt, ignore_errors=True)
         sh('git -C /repo worktree add --detach %s HEAD' % wt)
         try:
@@ -28,7 +32,7 @@ for kind, want in (('must_fail', 1), ('harmless', 0)):
             rc, out = sh('go build ./...', cwd=wt)
             if rc != 0:
                 results[kind][name] = {'error': 'does not build: '+out[-300:]}; bad += 1; print(name, 'DOES NOT BUILD'); continue
-            outd = '/tmp/selftest-out'; shutil.rmtree(outd, ignore_errors=True); os.makedirs(outd)
+            outd = '/tmp/selftest-out%d' % shard_i; shutil.rmtree(outd, ignore_errors=True); os.makedirs(outd)
             procs = [(p, subprocess.Popen(os.environ.get('QV_BIN','/verif/bin/qv')+' check %s -tier quick -repo %s' % (p, wt), shell=True, env=dict(ENV, QV_OUT=outd), stdout=subprocess.PIPE, stderr=subprocess.STDOUT)) for p in props]
             r = {}
             for p, pr in procs:
@@ -55,6 +59,6 @@ if 'no-seeded' not in opts and not opts.get('only'):
     results['seeded'] = seeded
 results['unexpected'] = bad
 results['when'] = time.strftime('%Y-%m-%d %H:%M:%S')
-json.dump(results, open('/verif/selftest/RESULTS.json', 'w'), indent=1)
+json.dump(results, open(opts.get('out', '/verif/selftest/RESULTS.json'), 'w'), indent=1)
 print('unexpected:', bad)
 sys.exit(1 if bad else 0)
